@@ -25,7 +25,7 @@ class C24(Check):
     trusted = ["asyncio cancellation semantics (CancelledError delivered at the awaited point, finally blocks and context managers run)",
                "harness/sim_bus.py, harness/sim_kernel.py (program table and program loading stand-ins)",
                "the event-loop iteration granularity covers every await point (a superset: several iterations fall inside one await)"]
-    assumptions = ["a single cancellation; the clean-up awaits complete", "process-based groups: only ProcessSyncGroup.wait_for_process is exercised, with a stand-in child process"]
+    assumptions = ["a single cancellation; the clean-up awaits complete", "process-based groups: ProcessSyncGroup.wait_for_process is exercised with a stand-in child process, and the cyclic loop of the subprocess (SyncGroupBase.run with the running flag) as a task of the harness's own event loop"]
 
     # case: {"kind": "slow"|"fast"|"proc", "terms": [...], "n": iterations before cancel}
     def configs(self):
@@ -45,10 +45,16 @@ class C24(Check):
                 out.append({"kind": kind, "terms": terms, "n": n})
         for n in [1, 2, 3, 5, 8]:   # n = 0 would cancel the task before its coroutine ever runs (no await point reached)
             out.append({"kind": "proc", "terms": [], "n": n})
+        # the other half of a process-based group: the cyclic loop its subprocess runs sees the parent's stop request (the
+        # shared running flag cleared by wait_for_process) - also while the cyclic frames are being lost
+        kind, terms = self.configs()[0]
+        for n in ([3, 20, 60, 75, 90, 110, 128] if self.tier == "quick" else list(range(0, 200, 6))):
+            for lose in (False, True):
+                out.append({"kind": "procloop", "terms": terms, "n": n, "lose": lose})
         return out
 
     def run_impl(self, case):
-        o = self.run_proc(case) if case["kind"] == "proc" else self.run_group(case)
+        o = self.run_proc(case) if case["kind"] == "proc" else self.run_group(case)      # run_group also serves "procloop"
         case["_o"] = o
         return o
 
@@ -111,9 +117,15 @@ class C24(Check):
             rig = Rig(case["terms"], ec_class=FastEtherCat if fast else None)
             rig.connect()
             devs = [Dev(t, s["rw"]) for t, s in zip(rig.terms, case["terms"])]
+            flag = [True]
             if fast:
                 rig.ec.programs = kernel.create_map(type("T", (), {"name": "PROG_ARRAY"}), 4, 4, 64)
                 sg = FastSyncGroup(rig.ec, devs)
+            elif case["kind"] == "procloop":
+                class StoppableGroup(SyncGroup):
+                    # ProcessSyncGroup.running: a flag shared with the parent, which clears it when its task is cancelled
+                    running = property(lambda self: flag[0])
+                sg = StoppableGroup(rig.ec, devs)
             else:
                 sg = SyncGroup(rig.ec, devs)
             sg.cycletime = 0
@@ -145,9 +157,19 @@ class C24(Check):
                     break
             nev = len(evlog)
             klog = len(kernel.log)
-            task.cancel()
+            if case["kind"] == "procloop":
+                flag[0] = False
+                if case["lose"]:
+                    def lossy(packet, index=None):
+                        if index is None:
+                            return real_rp(packet, index)
+                        evlog.append(("frame",))
+                        return asyncio.get_event_loop().create_future()       # this frame never comes back
+                    rig.ec.roundtrip_packet = lossy
+            else:
+                task.cancel()
             try:
-                await asyncio.wait_for(task, 60)
+                await asyncio.wait_for(task, 3 if case["kind"] == "procloop" else 60)
                 out = "returned"
             except asyncio.CancelledError:
                 out = "cancelled"
@@ -184,13 +206,13 @@ class C24(Check):
 
     def model_term(self, case):
         o = case["_o"]
-        if case["kind"] == "proc":
+        if case["kind"] in ("proc", "procloop"):
             return "(VZ 0)"
         rws = clist([cbool(s["rw"]) for s in case["terms"]])
         return f"(run {cbool(case['kind'] == 'fast')} {rws} {clist(self.pre_events(case, o))})"
 
     def model_value(self, case, o):
-        if case["kind"] == "proc":
+        if case["kind"] in ("proc", "procloop"):
             return 0
         post = sorted([1, e[1], e[2]] for e in o["post"] if e[0] == "al")
         vals = post + ([[4]] if "delete" in o["reg_post"] else [])
@@ -203,7 +225,11 @@ class C24(Check):
             if not o["stopped"]:
                 return "the subprocess was not stopped"
             return True
-        if o["outcome"] != "cancelled":
+        if case["kind"] == "procloop":
+            if o["outcome"] != "returned":
+                return (f"the cyclic loop of a process-based group did not end within 3 s after the stop request (running flag cleared after {case['n']} "
+                        f"iterations{', cyclic frames lost from then on' if case['lose'] else ''}): {o['outcome']} - the subprocess is never stopped")
+        elif o["outcome"] != "cancelled":
             return f"cancelled after {case['n']} loop iterations: the task ended with {o['outcome']}, not as cancelled"
         for t, s in enumerate(case["terms"]):
             al = [e[2] for e in o["pre"] + o["post"] if e[0] == "al" and e[1] == t]
@@ -221,7 +247,7 @@ class C24(Check):
         return True
 
     def nontrivial(self, case, o):
-        return case["kind"] != "proc" and any(e[0] == "al" and e[2] == 8 for e in o["pre"])
+        return case["kind"] not in ("proc",) and any(e[0] == "al" and e[2] == 8 for e in o["pre"])
 
     def search_cases(self):
         out = []
@@ -233,10 +259,11 @@ class C24(Check):
     def rule(self):
         return ("slow and fast sync groups over 2-3 simulated terminals (FMMU / direct, read-write / read-only, different start states) cancelled after n = 0..129 "
                 "event-loop iterations (every iteration for the first configuration, every second otherwise; thorough: every one up to 259) - this covers "
-                "every await of start-up and the first cycles; wait_for_process cancelled after 0..8 iterations; non-trivial = OPERATIONAL had been requested")
+                "every await of start-up and the first cycles; wait_for_process cancelled after 0..8 iterations; the cyclic loop a process-based group's "
+                "subprocess runs, with the shared running flag cleared after n iterations, with and without all cyclic frames lost from then on; non-trivial = OPERATIONAL had been requested")
 
     def distribution(self, cases, observed):
-        d = {"slow": 0, "fast": 0, "proc": 0, "cancel_after_op": 0, "cancel_in_mapping": 0}
+        d = {"slow": 0, "fast": 0, "proc": 0, "procloop": 0, "cancel_after_op": 0, "cancel_in_mapping": 0}
         for c, o in zip(cases, observed):
             d[c["kind"]] += 1
             if c["kind"] != "proc":
@@ -245,7 +272,7 @@ class C24(Check):
         return d
 
     def describe(self, case):
-        return {"kind": case["kind"], "terms": case["terms"], "n": case["n"]}
+        return {"kind": case["kind"], "terms": case["terms"], "n": case["n"], **({"lose": case["lose"]} if "lose" in case else {})}
 
 
 CHECK = C24
